@@ -18,9 +18,12 @@ Record qcase := {
   q_c : dcase;        (* the draw; [d_obs] = what the screen received *)
   q_e0 : bool;        (* the tty's ECHO flag when draw() is called *)
   q_self : bool;      (* the draw keeps ECHO off itself (new API, echo_input = False, on a tty) *)
-  q_cuts : list (nat * (list (list Z) * list (list Z)))
+  q_cuts : list (nat * (list (list Z) * list (list Z)));
                       (* per exchange: own tokens written before it; the reply's pieces that
                          arrived in the window / during the read *)
+  q_redirected : bool;(* standard output is not the terminal (a pipe): [d_obs] is what the pipe
+                         received; the active terminal is still asked *)
+  q_term : list tok   (* redirected: what the TERMINAL's screen received *)
 }.
 
 Definition q_run (c : qcase) (st : list tok) : list event :=
@@ -41,16 +44,25 @@ Definition qmodel_agrees (c : qcase) : bool :=
   end
   && (if d_kitty (q_c c) && d_anim (q_c c) then forallb kitty_anim_frame_ok (d_frames (q_c c)) else true).
 
+(** standard output redirected: the draw writes nothing to the terminal; the terminal's screen
+    receives the (empty) own stream interleaved with the echoes of the exchanges *)
+Definition q_term_model (c : qcase) : list tok :=
+  screen (q_e0 c) (weave exchange (q_e0 c) [] 0 (q_cuts c)).
+
 (** 0 = agrees; +1 differs from the model; +2 the observed behaviour contradicts the
-    specification *)
+    specification (redirected: ... or the terminal's screen -- on which there is no region --
+    received anything at all: "every screen cell outside the padded region is as it was") *)
 Definition qcheck (c : qcase) : nat :=
-  (if qmodel_agrees c then 0 else 1) + (if spec_holds (q_c c) then 0 else 2).
+  if q_redirected c then
+    (if model_agrees (q_c c) && toks_eqb (q_term_model c) (q_term c) then 0 else 1)
+    + (if spec_holds (q_c c) && is_nil (q_term c) then 0 else 2)
+  else (if qmodel_agrees c then 0 else 1) + (if spec_holds (q_c c) then 0 else 2).
 
 Definition qbad (cases : list qcase) : list (nat * nat) :=
   filter (fun p => negb (Nat.eqb (snd p) 0)) (index_from 0 (map qcheck cases)).
 
 Definition qexplain (c : qcase) :=
-  (explain (q_c c),
+  (explain (q_c c), q_redirected c, length (q_term c),
    match q_model c with
    | Some st => (Some (first_diff st (d_obs (q_c c)) 0), length st)
    | None => (None, 0%nat)
